@@ -125,8 +125,8 @@ func (q *Queue[T]) doAdd(item T) error {
 	}
 
 	// for the iterator, signal for any updates
-	q.nupdates.Signal()
-	verifSig("signal", q.nupdates, "nupdates")
+	q.nupdates.Broadcast()
+	verifSig("broadcast", q.nupdates, "nupdates")
 
 	return nil
 }
